@@ -204,11 +204,13 @@ Lemma walk_spec hi : forall ents f nextU syms,
     let '(f', next') := mb_walk ents f nextU in
     Forall2 reports (filter (fun e => (snd e >=? 0) && (fst e <? next')) ents) rep /\
     fb_inv f' (syms ++ syms_of nextU rep) /\ f_next f' = next' mod 65536 /\
-    nextU <= next' /\ f_base f' = f_base f /\ f_ref f' = f_ref f.
+    nextU <= next' /\ f_base f' = f_base f /\ f_ref f' = f_ref f /\
+    next' = nextU + Z.of_nat (length (syms_of nextU rep)).
 Proof.
   induction ents as [|[seq t] tl IH]; intros f nextU syms Hinv Hnext Ha Hb Hhi; cbn [mb_walk].
   - exists []. cbn [filter syms_of]. rewrite app_nil_r.
-    split; [constructor|]. split; [exact Hinv|]. split; [exact Hnext|]. split; [lia|]. split; reflexivity.
+    split; [constructor|]. split; [exact Hinv|]. split; [exact Hnext|]. split; [lia|]. split; [reflexivity|].
+    split; [reflexivity|cbn [length]; lia].
   - cbn [asc fst] in Ha. destruct Ha as [Ha1 Ha2]. inversion Hb as [|? ? Hb1 Hb2]; subst. cbn [fst] in Hb1.
     destruct (t >=? 0) eqn:Et.
     + destruct (fb_add_received f (u16 seq) t) as [f1|] eqn:Eadd.
@@ -220,17 +222,19 @@ Proof.
         set (sym := if (0 <=? round250 (t - f_last f)) && (round250 (t - f_last f) <=? 255) then 1 else 2) in *.
         destruct (IH f1 (seq + 1) _ Hinv1 Hn1 Ha2 Hb2 ltac:(lia)) as (rep & Hrep).
         exists ((seq, sym) :: rep). destruct (mb_walk tl f1 (seq + 1)) as [f' next'].
-        destruct Hrep as (HF & Hinv' & Hn' & Hle & Hb' & Hr').
+        destruct Hrep as (HF & Hinv' & Hn' & Hle & Hb' & Hr' & Hlen').
         cbn [filter fst snd]. rewrite Et. replace (seq <? next') with true by lia. cbn [andb].
         split; [constructor; [split; [reflexivity|]; unfold sym; destruct (_ && _); auto|exact HF]|].
-        split; [|split; [exact Hn'|]; split; [lia|]; split; congruence].
+        split; [|split; [exact Hn'|]; split; [lia|]; split; [congruence|]; split; [congruence|];
+                 cbn [syms_of fst snd length]; rewrite app_length, repeat_length; cbn [length]; lia].
         cbn [syms_of fst snd]. rewrite <- app_assoc in Hinv'. cbn [app] in Hinv'.
         replace (repeat 0 (Z.to_nat (seq - nextU)) ++ sym :: syms_of (seq + 1) rep)
           with (repeat 0 (Z.to_nat (seq - nextU)) ++ [sym] ++ syms_of (seq + 1) rep) by reflexivity.
         rewrite <- (app_assoc (repeat 0 (Z.to_nat (seq - nextU))) [sym]) in Hinv'. exact Hinv'.
       * exists []. cbn [syms_of]. rewrite app_nil_r.
         rewrite filter_none;
-          [split; [constructor|]; split; [exact Hinv|]; split; [exact Hnext|]; split; [lia|]; split; reflexivity|].
+          [split; [constructor|]; split; [exact Hinv|]; split; [exact Hnext|]; split; [lia|]; split; [reflexivity|];
+           split; [reflexivity|cbn [length]; lia]|].
         constructor; [cbn [fst snd]; replace (seq <? nextU) with false by lia; apply andb_false_r|].
         pose proof (asc_keys_ge _ _ Ha2) as Hk. eapply Forall_impl; [|exact Hk]. cbn beta. intros e He.
         replace (fst e <? nextU) with false by lia. apply andb_false_r.
@@ -284,6 +288,14 @@ Proof.
   rewrite app_length, repeat_length. cbn [length]. specialize (IH _ H2 Hb2 ltac:(lia)). lia.
 Qed.
 
+Lemma walk_next_le hi : forall l f nx, below hi l -> nx <= hi -> snd (mb_walk l f nx) <= hi.
+Proof.
+  induction l as [|[k v] tl IH]; intros f nx Hb Hn; cbn [mb_walk]; [exact Hn|].
+  inversion Hb as [|? ? Hk Htl]; subst. cbn [fst] in Hk.
+  destruct (v >=? 0); [destruct (fb_add_received f (u16 k) v) as [f'|]|]; cbn [snd]; auto.
+  apply IH; auto. lia.
+Qed.
+
 (* the retained entries maybeBuildFeedbackPacket(b, end) looks at *)
 Definition range_ents (m : amap) (b : Z) : list (Z * Z) :=
   filter (fun en => (am_clamp m b <=? fst en) && (fst en <? am_clamp m (m_end m))) (m_ent m).
@@ -302,12 +314,13 @@ Theorem maybe_build_spec sender r b :
         fb_inv fb (syms_of baseU rep) /\
         f_base fb = baseU mod 65536 /\ f_ref fb = Z.quot t0 64000 /\
         baseU <= first < next' /\ next' <= m_end m /\
+        next' = baseU + Z.of_nat (length (syms_of baseU rep)) /\
         Z.of_nat (length (syms_of baseU rep)) < 65536
   | (None, next', c) =>
       next' = b /\ c = r_fb r /\ ent_first (fun en => snd en >=? 0) (range_ents m b) = None
   end.
 Proof.
-  intros Hinv Hb m. pose proof Hinv as (Ha & Hbel & Hle & Hw).
+  intros Hinv Hb. cbv zeta. set (m := r_map r) in *. pose proof Hinv as (Ha & Hbel & Hle & Hw).
   unfold rec_maybe_build. fold m. fold (range_ents m b).
   assert (Hs : m_begin m <= am_clamp m b <= m_end m /\ b <= am_clamp m b).
   { unfold am_clamp. destruct (b <? m_begin m) eqn:E1; [lia|]. destruct (m_end m <? b) eqn:E2; lia. }
@@ -341,19 +354,10 @@ Proof.
   { pose proof (asc_from (first + 1) _ _ HaR) as H. eapply asc_weaken; [|exact H]. lia. }
   destruct (walk_spec (m_end m) _ fb1 (first + 1) _ Hinv1 Hn1 HaW (below_from _ _ _ HbR) ltac:(lia)) as (rep & Hrep).
   destruct (mb_walk (ent_from (first + 1) (range_ents m b)) fb1 (first + 1)) as [fb2 next'] eqn:Ewalk.
-  destruct Hrep as (HF & Hinv2 & Hn2 & Hle2 & Hb2 & Hr2).
+  destruct Hrep as (HF & Hinv2 & Hn2 & Hle2 & Hb2 & Hr2 & Hlen2).
   assert (Hnext_le : next' <= m_end m).
-  { (* next' is first+1 or one past a reported entry, all below end *)
-    clear - Ewalk HbR Hfirst_lt. assert (Hbw := below_from (first + 1) _ _ HbR).
-    revert Ewalk Hbw. generalize (ent_from (first + 1) (range_ents m b)) as l. intros l; revert fb1 Hfirst_lt.
-    generalize (first + 1) as nx. intros nx fb1 Hnx.
-    revert nx fb1 Hnx. induction l as [|[k v] tl IH]; intros nx fb1 Hnx Ew Hbw; cbn [mb_walk] in Ew.
-    - inversion Ew; subst. lia.
-    - inversion Hbw as [|? ? Hk Htl]; subst. cbn [fst] in Hk.
-      destruct (v >=? 0); [destruct (fb_add_received fb1 (u16 k) v) as [f'|]|].
-      + eapply (IH (k + 1) f'); eauto. lia.
-      + inversion Ew; subst. lia.
-      + eapply IH; eauto. }
+  { pose proof (walk_next_le (m_end m) _ fb1 (first + 1) (below_from (first + 1) _ _ HbR) ltac:(lia)) as H.
+    rewrite Ewalk in H. exact H. }
   exists first, t0, ((first, sym0) :: rep).
   split; [reflexivity|]. cbv zeta. fold baseU.
   split.
@@ -365,6 +369,8 @@ Proof.
   split; [rewrite Hb2, Hbase1; cbn [fb_new f_base]; reflexivity|].
   split; [rewrite Hr2, Href1; cbn [fb_new f_ref]; reflexivity|].
   split; [unfold baseU; lia|]. split; [exact Hnext_le|].
+  split.
+  { rewrite Hsyms, app_length, app_length, repeat_length. cbn [length]. unfold baseU in *. lia. }
   (* fewer than 2^16 statuses: window 2^15 + at most 0x7FFE missing before the first *)
   assert (Hrep_asc : asc baseU ((first, sym0) :: rep)).
   { cbn [asc fst]. split; [unfold baseU; lia|].
@@ -373,8 +379,131 @@ Proof.
   { constructor; [cbn [fst]; lia|].
     clear - HF HbR. assert (Hbw := below_filter (fun e => (snd e >=? 0) && (fst e <? next')) _ _ (below_from (first + 1) _ _ HbR)).
     revert HF Hbw. generalize (filter (fun e => (snd e >=? 0) && (fst e <? next')) (ent_from (first + 1) (range_ents m b))) as es.
-    intros es HF. induction HF as [|e r es' rep' [Hk _] _ IH]; intros Hbw; [constructor|].
+    intros es HF. induction HF as [|e rr es' rep' [Hk _] _ IH]; intros Hbw; [constructor|].
     inversion Hbw; subst. constructor; [rewrite Hk; auto|apply IH; auto]. }
   pose proof (syms_of_length (m_end m) _ baseU Hrep_asc Hrep_bel ltac:(unfold baseU; lia)) as Hlen.
   unfold baseU in *. lia.
+Qed.
+
+(* ------------------------------------------------------------------ *)
+(* the packet of maybeBuildFeedbackPacket in wire form                 *)
+(* ------------------------------------------------------------------ *)
+Lemma filter_nonzero_repeat0 n : filter nonzero (repeat 0 n) = [].
+Proof. induction n; cbn [repeat filter nonzero Z.eqb negb]; auto. Qed.
+
+Lemma filter_nonzero_syms_of : forall rep lo, Forall (fun r => snd r = 1 \/ snd r = 2) rep ->
+  filter nonzero (syms_of lo rep) = map snd rep.
+Proof.
+  induction rep as [|e tl IH]; intros lo H; cbn [syms_of map]; [reflexivity|].
+  inversion H as [|? ? He Htl]; subst. rewrite filter_app, filter_nonzero_repeat0. cbn [app filter].
+  replace (nonzero (snd e)) with true by (unfold nonzero; destruct He as [-> | ->]; reflexivity).
+  f_equal. apply IH, Htl.
+Qed.
+
+Lemma reports_syms es rep : Forall2 reports es rep -> Forall (fun r => snd r = 1 \/ snd r = 2) rep.
+Proof. induction 1 as [|e r es' rep' [_ Hs] _ IH]; constructor; auto. Qed.
+
+(* C05_build per packet, on the wire: the packet built from start pointer b
+   reports, for the numbers baseU .. next'-1 (baseU = max(b, first - 0x7FFE)),
+   exactly the retained arrivals of that range as received (symbol 1 or 2, one
+   delta each, in order) and every other number as not received *)
+Theorem build_packet_spec sender r b media fbc :
+  am_inv (r_map r) -> b < m_end (r_map r) ->
+  let m := r_map r in
+  match rec_maybe_build sender r b (m_end m) with
+  | (Some fb, next', _) =>
+      let p := fb_get_rtcp sender media fbc fb in
+      exists first t0 rep,
+        ent_first (fun en => snd en >=? 0) (range_ents m b) = Some (first, t0) /\
+        let baseU := Z.max b (first - 32766) in
+        Forall2 reports (filter (fun e => (snd e >=? 0) && (fst e <? next')) (range_ents m b)) rep /\
+        (exists k, (k < 7)%nat /\ statuses_wire (p_chunks p) = syms_of baseU rep ++ repeat 0 k) /\
+        p_count p = Z.of_nat (length (syms_of baseU rep)) /\
+        map fst (p_deltas p) = map snd rep /\
+        p_base p = baseU mod 65536 /\
+        p_ref p = (Z.quot t0 64000 mod 4294967296) mod 16777216 /\
+        next' = baseU + p_count p /\ first < next' <= m_end m
+  | (None, next', _) => next' = b
+  end.
+Proof.
+  intros Hinv Hb. cbv zeta. pose proof (maybe_build_spec sender r b Hinv Hb) as H. cbv zeta in H.
+  destruct (rec_maybe_build sender r b (m_end (r_map r))) as [[[fb|] next'] c]; [|tauto].
+  destruct H as (first & t0 & rep & Hfirst & HF & Hfb & Hbase & Href & Hord & Hle & Hnext & Hlen).
+  exists first, t0, rep. split; [exact Hfirst|]. split; [exact HF|].
+  pose proof (fb_packet_ok sender media fbc fb _ Hfb Hlen) as Hp. cbv zeta in Hp.
+  destruct Hp as (Hst & Hcnt & Hty & _ & Hpb & _).
+  split; [exact Hst|]. split; [exact Hcnt|].
+  split; [rewrite Hty; apply filter_nonzero_syms_of; eapply reports_syms; eauto|].
+  split; [rewrite Hpb; exact Hbase|].
+  split; [unfold fb_get_rtcp; cbn [p_ref]; rewrite Href; reflexivity|].
+  split; [rewrite Hcnt; exact Hnext|lia].
+Qed.
+
+(* ------------------------------------------------------------------ *)
+(* packets of one build cover consecutive, non-overlapping ranges      *)
+(* ------------------------------------------------------------------ *)
+(* e = the base the next packet must have (None: any) *)
+Fixpoint consec_from (e : option Z) (ps : list pkt) : Prop :=
+  match ps with
+  | [] => True
+  | p :: tl => match e with None => True | Some x => p_base p = x end /\
+               consec_from (Some ((p_base p + p_count p) mod 65536)) tl
+  end.
+Fixpoint end_of (e : option Z) (ps : list pkt) : option Z :=
+  match ps with [] => e | p :: tl => end_of (Some ((p_base p + p_count p) mod 65536)) tl end.
+
+Lemma consec_snoc ps : forall e p, consec_from e ps ->
+  match end_of e ps with None => True | Some x => p_base p = x end ->
+  consec_from e (ps ++ [p]) /\ end_of e (ps ++ [p]) = Some ((p_base p + p_count p) mod 65536).
+Proof.
+  induction ps as [|q tl IH]; intros e p Hc He; cbn [app consec_from end_of] in *.
+  - split; [split; [exact He|exact I]|reflexivity].
+  - destruct Hc as [Hq Hc]. destruct (IH _ p Hc He) as [H1 H2]. split; [split; auto|exact H2].
+Qed.
+
+Lemma build_loop_consec fuel sender : forall r acc,
+  am_inv (r_map r) -> consec_from None acc ->
+  match end_of None acc with
+  | None => True
+  | Some x => exists s, r_start r = Some s /\ m_begin (r_map r) < s /\ x = s mod 65536
+  end ->
+  consec_from None (snd (rec_build_loop fuel sender r (m_end (r_map r)) acc)).
+Proof.
+  induction fuel as [|fuel IH]; intros r acc Hinv Hc He; cbn [rec_build_loop]; [exact Hc|].
+  destruct (r_start r) as [s|] eqn:Es; [|exact Hc].
+  destruct (s <? m_end (r_map r)) eqn:Elt; [|exact Hc].
+  pose proof (build_packet_spec sender r s (r_media r) (r_fb r) Hinv ltac:(lia)) as Hspec. cbv zeta in Hspec.
+  destruct (rec_maybe_build sender r s (m_end (r_map r))) as [[[fb|] next'] c]; [|exact Hc].
+  destruct Hspec as (first & t0 & rep & Hfirst & HF & _ & Hcnt & _ & Hbase & _ & Hnext & Hord).
+  set (p := fb_get_rtcp sender (r_media r) (r_fb r) fb) in *.
+  pose proof Hinv as (Ha & Hbel & Hle & Hw).
+  (* the first received entry of the range is inside the window *)
+  assert (Hfirst_ge : m_begin (r_map r) <= first).
+  { assert (HaR : asc (m_begin (r_map r)) (range_ents (r_map r) s)) by (apply asc_filter, Ha).
+    eapply ent_first_key_ge; eauto. }
+  assert (Hp : match end_of None acc with None => True | Some x => p_base p = x end).
+  { destruct (end_of None acc) as [x|]; [|exact I].
+    destruct He as (s' & Hs' & Hlt & Hx). inversion Hs'; subst s'.
+    rewrite Hbase, Hx. f_equal. lia. }
+  destruct (consec_snoc acc None p Hc Hp) as [Hc' He'].
+  change (m_end (r_map r)) with (m_end (r_map (mkRec (r_map r) (r_unw r) (Some next') (r_media r) c (r_held r)))).
+  apply IH; cbn [r_map r_start]; auto.
+  rewrite He'. exists next'. split; [reflexivity|]. split; [lia|].
+  rewrite Hbase, Hnext. lia.
+Qed.
+
+(* every build of every history: consecutive ranges *)
+Theorem run_consec sender ops : forall r, am_inv (r_map r) ->
+  Forall (consec_from None) (rec_run sender r ops).
+Proof.
+  induction ops as [|o tl IH]; intros r Hinv; cbn [rec_run]; [constructor|].
+  destruct o as [ssrc seq t|].
+  - apply IH, record_inv, Hinv.
+  - pose proof (build_map sender r) as Hmap.
+    assert (Hcons : consec_from None (snd (rec_build sender r))).
+    { unfold rec_build. destruct (r_start r) eqn:Es; [|exact I].
+      pose proof (build_loop_consec (S (length (m_ent (r_map r)))) sender r [] Hinv I I) as H.
+      destruct (rec_build_loop _ _ _ _ _) as [r' ps]. exact H. }
+    destruct (rec_build sender r) as [r' ps]. cbn [fst snd] in *.
+    constructor; [exact Hcons|]. apply IH. rewrite Hmap. exact Hinv.
 Qed.
